@@ -110,6 +110,21 @@ class RepoClass:
         return f'<class {self.mod.name}.{self.node.name}>'
 
 
+class Instance(Host):
+    """Instance of a repository class, for folding representation-level primitives
+    (attribute dictionary + methods/properties looked up in the class body)."""
+
+    def __init__(self, cls: 'RepoClass'):
+        object.__setattr__(self, '_cls', cls)
+        object.__setattr__(self, '_d', {})
+
+    def __setattr__(self, k, v):
+        self._d[k] = v
+
+    def __repr__(self):
+        return f'<{self._cls.node.name} instance>'
+
+
 class Env:
     def __init__(self, parent=None, vars=None):
         self.parent = parent
@@ -180,6 +195,17 @@ _CMPOPS = {
 }
 
 
+class _NullLogger(Host):
+    def debug(self, *a, **k):
+        return None
+
+    info = warning = error = debug
+
+
+# pure standard-library modules whose functions may be folded
+_PURE_MODULES = ('operator', 'itertools', 'math', 'functools')
+
+
 class _Uuid(Host):
     """uuid.uuid4().hex -> deterministic fresh token."""
 
@@ -215,6 +241,7 @@ class Interp:
             'math.ceil': __import__('math').ceil,
             'math.log2': __import__('math').log2,
             'math.floor': __import__('math').floor,
+            'logging.getLogger': lambda *a: _NullLogger(),
             'typing.cast': lambda t, v: v,
             'tp.cast': lambda t, v: v,
         }
@@ -251,6 +278,8 @@ class Interp:
             v = self._import_value(tmod, tname)
         elif name in _SAFE_BUILTINS:
             return _SAFE_BUILTINS[name]
+        elif name == '__name__':
+            return mod.name
         else:
             raise AnalysisError(f'{mod.rel}: name {name} not resolvable')
         self._globals_cache[key] = v
@@ -270,6 +299,8 @@ class Interp:
             return self.global_value(self.repo.mod(tmod), tname)
         if sub in self.externals:
             return self.externals[sub]
+        if tmod in _PURE_MODULES and hasattr(__import__(tmod), tname):
+            return getattr(__import__(tmod), tname)
         return ExternalRef(sub)
 
     def _class_value(self, mod, node: ast.ClassDef):
@@ -633,6 +664,11 @@ class Interp:
                 return self.overrides[name]
             if name in self.externals:
                 return self.externals[name]
+            root, _, rest = name.partition('.')
+            if root in _PURE_MODULES and rest and '.' not in rest:
+                pm = __import__(root)
+                if hasattr(pm, rest):
+                    return getattr(pm, rest)
             return ExternalRef(name)
         if isinstance(obj, RepoEnum):
             if attr in obj.members:
@@ -648,6 +684,10 @@ class Interp:
                     if any(isinstance(t, ast.Name) and t.id == attr for t in ts) and st.value is not None:
                         return self.eval(obj.mod, st.value, Env())
             self.unsupported(mod, node, f'class attribute {q}')
+        if isinstance(obj, Instance):
+            if attr in obj._d:
+                return obj._d[attr]
+            return self._class_attr(mod, node, obj, obj._cls, attr)
         if isinstance(obj, (Host, EnumMember)) or isinstance(
             obj, (list, tuple, dict, str, set, frozenset, int, bool, range, bytes)
         ):
@@ -661,6 +701,42 @@ class Interp:
                     )
                 raise InterpRaise('AttributeError', node)
         self.unsupported(mod, node, f'attribute {attr} of {type(obj).__name__}')
+
+    def _class_attr(self, mod, node, inst, cls, attr, _depth=0):
+        q = f'{cls.node.name}.{attr}'
+        fn = cls.mod.functions.get(q)
+        if fn is not None:
+            decos = [norm(d) for d in fn.decorator_list]
+            if 'property' in decos:
+                return RepoFunc(self, cls.mod, fn)(inst)
+            if 'staticmethod' in decos:
+                return RepoFunc(self, cls.mod, fn)
+            return RepoFunc(self, cls.mod, fn, bound_self=inst)
+        for st in cls.node.body:
+            if isinstance(st, (ast.Assign, ast.AnnAssign)):
+                ts = st.targets if isinstance(st, ast.Assign) else [st.target]
+                if any(isinstance(t, ast.Name) and t.id == attr for t in ts) and st.value is not None:
+                    return self.eval(cls.mod, st.value, Env())
+        if _depth < 4:
+            for b in cls.node.bases:
+                try:
+                    bv = self.eval(cls.mod, b, Env())
+                except AnalysisError:
+                    continue
+                if isinstance(bv, RepoClass):
+                    try:
+                        return self._class_attr(mod, node, inst, bv, attr, _depth + 1)
+                    except AnalysisError:
+                        continue
+        raise AnalysisError(
+            f'{mod.rel}:{getattr(node, "lineno", "?")}: {cls.node.name} instance has no attribute {attr}'
+        )
+
+    def instantiate(self, cls: 'RepoClass', args=(), kwargs=None):
+        inst = Instance(cls)
+        if f'{cls.node.name}.__init__' in cls.mod.functions:
+            RepoFunc(self, cls.mod, cls.mod.functions[f'{cls.node.name}.__init__'], bound_self=inst)(*args, **(kwargs or {}))
+        return inst
 
     def eval_call(self, mod, e: ast.Call, env):
         fn = self.eval(mod, e.func, env)
@@ -676,7 +752,9 @@ class Interp:
                 kwargs.update(self.eval(mod, k.value, env))
             else:
                 kwargs[k.arg] = self.eval(mod, k.value, env)
-        if isinstance(fn, (ExternalRef, RepoClass)):
+        if isinstance(fn, RepoClass):
+            return self.instantiate(fn, args, kwargs)
+        if isinstance(fn, ExternalRef):
             self.unsupported(mod, e, f'call of unresolved {fn!r}')
         if isinstance(fn, RepoFunc):
             return fn(*args, **kwargs)
